@@ -13,7 +13,9 @@ TNewRet == Is("PciNewRet") /\ PciNewRet(Ev.is_ok, Ev.is_panic, Ev.unchanged, Ev.
 \* dropping a freshly constructed transport: accesses only inside what was mapped
 TDrop   == Is("PciDrop") /\ UNCHANGED pvars
 TDropE  == Is("PciDropEnd") /\ UNCHANGED pvars
-TAdhoc  == Is("M") /\ Ev.sp = "adhoc" /\ AccInWindow(Ev.off, Ev.w, Ev.pal) /\ UNCHANGED pvars
+\* ("suitably aligned for its use": every access the transport makes is naturally aligned)
+TAdhoc  == Is("M") /\ Ev.sp = "adhoc" /\ AccInWindow(Ev.off, Ev.w, Ev.pal)
+           /\ (Ev.pal[1] + Ev.off) % Ev.w = 0 /\ UNCHANGED pvars
 TPReset == Is("PReset") /\ PReset(Ev)
 TAcc    == Is("M") /\ Ev.sp # "adhoc" /\ Acc(Ev.sp, Ev.rw, Ev.off, Ev.w, Ev.vl)
 TOp     == Is("Op") /\ OpBegin(Ev)
